@@ -2,9 +2,10 @@ package checks
 
 import (
 	"encoding/json"
-	"regexp"
 	"fmt"
+	"math/big"
 	"math/rand"
+	"regexp"
 	"strings"
 
 	jbytes "github.com/jsightapi/jsight-schema-core/bytes"
@@ -422,6 +423,62 @@ func runC13(c *core.Ctx) error {
 		z := respell(rng, rng.Intn(4) != 0 == neg, i2, f2, maxShift)
 		add(numCase{Kind: "trace", A: x, B: z})
 		add(numCase{Kind: "trace", A: z, B: y})
+	}
+	// digit-length and machine-word boundaries: for every length up to 40 digits the smallest, the largest and two
+	// random numbers of that length with their successors; 2^k-1, 2^k, 2^k+1 around the word sizes. All pairs of equal
+	// length (the comparison that walks digits) and pairs across adjacent lengths, both signs, with and without a fraction.
+	{
+		var groups [][]string
+		one := big.NewInt(1)
+		for L := 1; L <= 40; L++ {
+			lo := new(big.Int).Exp(big.NewInt(10), big.NewInt(int64(L-1)), nil)
+			hi := new(big.Int).Sub(new(big.Int).Exp(big.NewInt(10), big.NewInt(int64(L)), nil), one)
+			g := []string{lo.String(), hi.String(), new(big.Int).Add(lo, one).String(), new(big.Int).Sub(hi, one).String()}
+			for k := 0; k < 2; k++ {
+				x, _ := new(big.Int).SetString(strings.TrimLeft(randDigits(rng, L), "0")+"0", 10)
+				x.Mod(x, hi).Add(x, lo).Mod(x, hi)
+				if x.Cmp(lo) < 0 {
+					x.Add(x, lo)
+				}
+				g = append(g, x.String(), new(big.Int).Add(x, one).String())
+			}
+			groups = append(groups, g)
+		}
+		var pow []string
+		for _, k := range []uint{8, 16, 31, 32, 53, 63, 64, 65, 127, 128} {
+			p := new(big.Int).Lsh(one, k)
+			pow = append(pow, new(big.Int).Sub(p, one).String(), p.String(), new(big.Int).Add(p, one).String())
+		}
+		groups = append(groups, pow)
+		dress := func(t string, v int) string {
+			switch v % 4 {
+			case 1:
+				return "-" + t
+			case 2:
+				return t + ".0"
+			case 3:
+				return t + ".5"
+			}
+			return t
+		}
+		nb := 0
+		for gi, g := range groups {
+			pool := append([]string{}, g...)
+			if gi > 0 && gi < 40 {
+				pool = append(pool, groups[gi-1][1], groups[gi-1][0])
+			}
+			for i, x := range pool {
+				for j, y := range pool {
+					if !c.Thorough() && (i*7+j*3+gi+int(c.Seed))%3 != 0 {
+						continue
+					}
+					v := (i + j + gi) % 8
+					add(numCase{Kind: "trace", A: dress(x, v), B: dress(y, v/2)})
+					nb++
+				}
+			}
+		}
+		c.Set("boundary_pairs", nb)
 	}
 	c.Set("trace_lines", len(items))
 	if err := validateNumItems(c, items); err != nil {
